@@ -39,7 +39,8 @@ RULE = ("(1) every native converter of the real code against its Lean model on g
         "(semantic_version.NpmSpec, GemRequirement.satisfied_by, packaging SpecifierSet, maven.VersionRange, conan VersionRange, "
         "hand-written nginx / deb / rpm / openssl readings), probed at, just below, just above and between every bound; "
         "non-trivial = the expression uses a shorthand, an exclusion or two alternatives")
-ASSUMPTIONS = ["probes are release versions N.N.N (no pre-release, dev, post or local tags)",
+ASSUMPTIONS = ["probes are release versions N.N.N (no pre-release, dev, post or local tags), except in the deb / rpm relation streams over "
+               "any version, where what the native relation means is the order of the scheme's Lean model",
                "the third-party matchers are faithful to their ecosystems (trusted)"]
 
 
@@ -141,6 +142,86 @@ def check(ctx, stream, native, conv, vclass, matcher, bounds, nontrivial, extra=
                      "vers_says": got2, "clause": "membership of %s (the same version as %s) differs" % (t2, t)}
                 ctx.disagree(stream, "%s @%s" % (native, t2), str(got2), str(want), True, d, spec=str(want))
                 return
+
+
+def _neighbours_of(s, rng):
+    """texts close to a bound: one letter in the other case, `~` and `^` exchanged, a short tail after it or instead
+    of its last part (where the order of a scheme turns on one character, it is between a bound and texts like these)"""
+    out = []
+    idx = [i for i, ch in enumerate(s) if ch.isalpha() and ch.isascii()]
+    if idx:
+        i = rng.choice(idx)
+        out.append(s[:i] + s[i].swapcase() + s[i + 1:])
+    for a, b in (("~", "^"), ("^", "~")):
+        if a in s:
+            i = rng.choice([k for k, ch in enumerate(s) if ch == a])
+            out.append(s[:i] + b + s[i + 1:])
+    base = s
+    for sep in "~^":
+        if sep in base.split(":")[-1]:
+            base = base[:base.rindex(sep)]
+    for tail in rng.sample(["~rc1", "^git1", "^20200101", "~", "^", "a", "A", "+", ".0", "-1", "-1Ubuntu1", "-1ubuntu1"], 4):
+        out.append(base + tail)
+        out.append(s + tail)
+    return [t for t in out if t != s]
+
+
+def _relations_over_any_version(ctx, per):
+    """deb / rpm relations whose bound is ANY version of the scheme (letters in both cases, `~`, `^`, epochs, revisions),
+    probed with other generated versions and with the bound's neighbours.  What the native relation means is
+    the order of the scheme's Lean model (`Scheme/Deb.lean`: dpkg's order; `Scheme/Rpm.lean`: rpmvercmp), asked through
+    the driver; the property is that the converted range has exactly that membership."""
+    import operator as op
+    safe_chars = set("abcdefghijklmnopqrstuvwxyzABCDEFGHIJKLMNOPQRSTUVWXYZ0123456789.+-~^:_")
+    jobs = []
+    for sname, rcls, vcls, ops in (("deb", VR.DebianVersionRange, V.DebianVersion, {"<<": op.lt, "<=": op.le, "=": op.eq, ">=": op.ge, ">>": op.gt}),
+                                   ("rpm", VR.RpmVersionRange, V.RpmVersion, {"<": op.lt, "<=": op.le, "=": op.eq, ">=": op.ge, ">": op.gt, "!=": op.ne})):
+        rng = ctx.rng("c06-rel", sname)
+        for _ in range(per):
+            try:
+                s, _v = S.gen_valid(sname, rng)
+            except RuntimeError:
+                break
+            if not s or set(s) - safe_chars:
+                continue
+            o = rng.choice(list(ops))
+            e = "%s %s" % (o, s)
+            if sname == "deb" and rng.random() < 0.5:
+                e = "(%s)" % e
+            probes = _neighbours_of(s, rng)
+            for _k in range(3):
+                try:
+                    probes.append(S.gen_valid(sname, rng)[0])
+                except RuntimeError:
+                    pass
+            for t in probes:
+                if t and not (set(t) - safe_chars):
+                    jobs.append((sname, rcls, vcls, ops[o], o, e, s, t))
+    answers = common.run_model(["vcmp %s %s %s" % (j[0], common.hx(j[7]), common.hx(j[6])) for j in jobs])
+    done = {}
+    for (sname, rcls, vcls, f, o, e, s, t), ans in zip(jobs, answers):
+        stream = sname + "-relation-any-version"
+        sign = {"lt": -1, "eq": 0, "gt": 1}.get(ans.split(" ")[0])
+        if sign is None:
+            continue        # not two versions of the scheme for the model
+        ctx.count(stream, key="%s @%s" % (e, t), nontrivial=not s.replace(".", "").isdigit(), branch=o)
+        if done.get((sname, e)):
+            continue
+        want = bool(f(sign, 0))
+        try:
+            r = rcls.from_native(e)
+            pv = vcls(t)
+        except Exception:  # noqa: BLE001 — the conversion of such expressions is the business of the streams above
+            continue
+        try:
+            got = pv in r
+        except Exception as ex:  # noqa: BLE001
+            got = "raises %s" % type(ex).__name__
+        if got != want:
+            done[(sname, e)] = True
+            ctx.disagree(stream, "%s @%s" % (e, t), str(got), str(want), True,
+                         {"native": e, "vers": str(r), "probe": t, "order_of_the_scheme_model": ans.split(" ")[0],
+                          "native_relation_says": want, "vers_says": got, "clause": "membership of %s differs" % t}, spec=str(want))
 
 
 def correspondence(ctx):
@@ -255,6 +336,16 @@ def correspondence(ctx):
             kind = rng.choice(["interval", "exact", "lower", "upper", "two", "shared", "shared", "hole"])
             inlo = (lambda p, x: p >= x) if lo == "[" else (lambda p, x: p > x)
             inhi = (lambda p, x: p <= x) if hi == "]" else (lambda p, x: p < x)
+            # the shared bound written a second way on the other side (1.1.0 / 1.1 / 1.1.0.0: the same version)
+            b_alt = rel(*b)
+            if rng.random() < 0.5:
+                b_alt = b_alt + ".0" if rng.random() < 0.4 else b_alt
+                while b_alt.endswith(".0") and rng.random() < 0.7:
+                    b_alt = b_alt[:-2]
+            if rng.random() < 0.5:
+                b_alt, b_txt = rel(*b), b_alt
+            else:
+                b_txt = rel(*b)
             if kind == "interval":
                 e, bd, f = "%s%s,%s%s" % (lo, rel(*a), rel(*b), hi), [a, b], (lambda p: inlo(p, a) and inhi(p, b))
             elif kind == "exact":
@@ -267,11 +358,11 @@ def correspondence(ctx):
                 # two intervals that share the bound b, each side inclusive or not: (a,b),(b,c] excludes exactly b
                 l2 = rng.choice("[(")
                 in2 = (lambda p, x: p >= x) if l2 == "[" else (lambda p, x: p > x)
-                e, bd, f = "[%s,%s%s,%s%s,%s]" % (rel(*a), rel(*b), hi, l2, rel(*b), rel(*c)), [a, b, c], \
+                e, bd, f = "[%s,%s%s,%s%s,%s]" % (rel(*a), b_txt, hi, l2, b_alt, rel(*c)), [a, b, c], \
                     (lambda p, in2=in2: (p >= a and inhi(p, b)) or (in2(p, b) and p <= c))
             elif kind == "hole":
                 # the idiom for "every version but b"
-                e, bd, f = "(,%s),(%s,)" % (rel(*b), rel(*b)), [b], (lambda p: p != b)
+                e, bd, f = "(,%s),(%s,)" % (b_txt, b_alt), [b], (lambda p: p != b)
             else:
                 e, bd, f = "%s%s,%s%s,[%s,%s)" % (lo, rel(*a), rel(*b), hi, rel(*c), rel(*d)), [a, b, c, d], \
                     (lambda p: (inlo(p, a) and inhi(p, b)) or c <= p < d)
@@ -350,6 +441,7 @@ def correspondence(ctx):
             if sname == "deb" and rng.random() < 0.5:
                 e = "(%s)" % e
             check(ctx, sname, e, rcls.from_native, vcls, lambda t, o=o: ops[o](tuple(map(int, t.split("."))), a), [a], o in ("!=", "<>"))
+    _relations_over_any_version(ctx, per)
     rng = ctx.rng("c06", "openssl")
     for _ in range(per // 2):
         vs = sorted({(3, rng.randint(0, 3), rng.randint(0, 5)) for _ in range(rng.randint(1, 3))})
